@@ -152,6 +152,7 @@ public:
             m_unbuf_recv_cv.notify_all();
         } else {
             // Buffered: wake up all waiting threads via semaphore
+            std::atomic_thread_fence(std::memory_order_seq_cst);
             int senders = m_senders_waiting.load(std::memory_order_acquire);
             int receivers = m_receivers_waiting.load(std::memory_order_acquire);
             if (senders > 0) m_send_sem.signal(senders);
@@ -267,6 +268,7 @@ private:
             // Try to push (lock-free)
             if (m_queue->read_available() < m_capacity && m_queue->push(ptr)) {
                 // Notify waiting receiver
+                std::atomic_thread_fence(std::memory_order_seq_cst);
                 if (m_receivers_waiting.load(std::memory_order_acquire) > 0) {
                     m_recv_sem.signal(1);
                 }
@@ -280,8 +282,14 @@ private:
                 return false;
             }
 
-            m_senders_waiting.fetch_add(1, std::memory_order_acq_rel);
-            int ret = m_send_sem.wait(1, timeout.timeout_us());
+            m_senders_waiting.fetch_add(1, std::memory_order_seq_cst);
+            std::atomic_thread_fence(std::memory_order_seq_cst);
+            // A receiver that freed a slot (or close()) before it could see the
+            // registration above does not signal: look again before sleeping.
+            int ret = 0;
+            if (m_queue->read_available() >= m_capacity &&
+                !m_closed.load(std::memory_order_seq_cst))
+                ret = m_send_sem.wait(1, timeout.timeout_us());
             m_senders_waiting.fetch_sub(1, std::memory_order_acq_rel);
 
             if (ret < 0 && errno == ETIMEDOUT) {
@@ -299,6 +307,7 @@ private:
                 value = std::move(*ptr);
                 delete ptr;
                 // Notify waiting sender
+                std::atomic_thread_fence(std::memory_order_seq_cst);
                 if (m_senders_waiting.load(std::memory_order_acquire) > 0) {
                     m_send_sem.signal(1);
                 }
@@ -314,8 +323,14 @@ private:
                 return false;
             }
 
-            m_receivers_waiting.fetch_add(1, std::memory_order_acq_rel);
-            int ret = m_recv_sem.wait(1, timeout.timeout_us());
+            m_receivers_waiting.fetch_add(1, std::memory_order_seq_cst);
+            std::atomic_thread_fence(std::memory_order_seq_cst);
+            // A sender that pushed an item (or close()) before it could see the
+            // registration above does not signal: look again before sleeping.
+            int ret = 0;
+            if (m_queue->empty() &&
+                !m_closed.load(std::memory_order_seq_cst))
+                ret = m_recv_sem.wait(1, timeout.timeout_us());
             m_receivers_waiting.fetch_sub(1, std::memory_order_acq_rel);
 
             if (ret < 0 && errno == ETIMEDOUT) {
@@ -332,6 +347,7 @@ private:
 
         // Lock-free push
         if (m_queue->read_available() < m_capacity && m_queue->push(ptr)) {
+            std::atomic_thread_fence(std::memory_order_seq_cst);
             if (m_receivers_waiting.load(std::memory_order_acquire) > 0) {
                 m_recv_sem.signal(1);
             }
@@ -346,6 +362,7 @@ private:
         if (m_queue->pop(ptr)) {
             value = std::move(*ptr);
             delete ptr;
+            std::atomic_thread_fence(std::memory_order_seq_cst);
             if (m_senders_waiting.load(std::memory_order_acquire) > 0) {
                 m_send_sem.signal(1);
             }
